@@ -70,18 +70,19 @@ Theorem C15_aggregate_genesis_validate_old_refuted :
   exists l, ga_validate_old l = Panic /\ ga_validate l = Err.
 Proof. exists [{| gp_erc20 := B "0x5dCA2483280D9727c80b5518faC4556617fb194F"; gp_denoms := [] |}]. split; reflexivity. Qed.
 
-(** STILL OPEN at /repo HEAD (finding xibc-genesis-relayer-empty-address): the client genesis validation
-    does not look at the relayers; an empty relayer address is an empty store key in InitGenesis.  The
-    hypothesis [relayers_nonempty] of validated_never_panics_xibc_genesis is necessary. *)
+(** Finding xibc-genesis-relayer-empty-address (found by this check; fixed by d9df21a): the client genesis
+    validation did not look at the relayers; an empty relayer address is an empty store key in InitGenesis.
+    The hypothesis [relayers_nonempty] of validated_never_panics_xibc_genesis_old is necessary. *)
 Definition w_gx : gx_genesis :=
-  {| gx_clients := []; gx_consensus := []; gx_metadata := []; gx_relayers := [0]; gx_native := B "teleport";
-     gx_acks := []; gx_commitments := []; gx_receipts := []; gx_seqs := [] |}.
+  {| gx_clients := []; gx_consensus := []; gx_metadata := [];
+     gx_relayers := [{| rl_addr_len := 0; rl_bech32 := false; rl_chains := [B "chain-a"]; rl_n_addresses := 1 |}];
+     gx_native := B "teleport"; gx_acks := []; gx_commitments := []; gx_receipts := []; gx_seqs := [] |}.
 
-Theorem C15_xibc_genesis_relayer_refuted : exists g, gx_validate g = Ok tt /\ gx_init g = Panic.
+Theorem C15_xibc_genesis_relayer_refuted : exists g, gx_validate_old g = Ok tt /\ gx_init g = Panic.
 Proof. exists w_gx. split; reflexivity. Qed.
 
-(** ... and a validation that checks the relayers (patch /var/tmp/fixes/C15) rejects the witness. *)
-Theorem C15_xibc_genesis_relayer_patched : gx_validate_gen true w_gx = Err.
+(** ... the repaired validation rejects the witness. *)
+Theorem C15_xibc_genesis_relayer_now_rejected : gx_validate w_gx = Err.
 Proof. reflexivity. Qed.
 
 (** STILL OPEN at /repo HEAD (finding bsc-upgrade-malformed-signer-key): genesis metadata is validated only
